@@ -192,6 +192,9 @@ fn check_drop_future(fair: bool, queue: &[usize]) {
         assert!(node_state(&w, heir) == 2, "[C03] the heir holds the notification");
     } else {
         assert!(kit::total_wakes() == 0, "[C03] nobody else is woken by a cancellation");
+        if fair {
+            assert!(kit::total_wakes() == 0, "[C04] fair: cancelling a future that held no wake-up does not disturb the others (nobody is handed a turn)");
+        }
     }
     let mut j = 0;
     while j < N {
